@@ -320,20 +320,30 @@ def summarise(chk, units, results):
         chk.samples.append({'suite': u[0], 'setup': u[1].describe(), 'seed': u[2], 'rest': repr(u[3:])[:300]})
 
 
-def run(chk, tier, proof_ok):
-    tbl = table_obligations('C16', chk)
-    record_table(chk, tbl)
-    divs, _, _ = correspondence(chk, 2 if tier == 'quick' else 12)
-    full = tier == 'thorough' or not proof_ok or bool(tbl['failed']) or bool(divs)
-    units = alias.c16_cases(chk.seed, tier, full)
-    procs = min(16, os.cpu_count() or 1)
-    results = alias.run_units(units, procs)
-    summarise(chk, units, results)
+def collect(results):
     findings = []
     for f, _ in results:
         for key, text, payload in f:
             if not any(k == key for k, _, _ in findings):
                 findings.append((key, text, payload))
+    return findings
+
+
+def run(chk, tier, proof_ok):
+    tbl = table_obligations('C16', chk)
+    record_table(chk, tbl)
+    divs, _, _ = correspondence(chk, 2 if tier == 'quick' else 12)
+    trouble = not proof_ok or bool(tbl['failed']) or bool(divs)
+    procs = min(16, os.cpu_count() or 1)
+    units = alias.c16_cases(chk.seed, tier, False)
+    results = alias.run_units(units, procs)
+    findings = collect(results)
+    if trouble and not findings and tier != 'thorough':
+        # an obligation broke and the light search found no failing input: the full search
+        more = alias.c16_cases(chk.seed + 1, 'thorough', True)
+        units, results = units + more, results + alias.run_units(more, procs)
+        findings = collect(results)
+    summarise(chk, units, results)
     for key, text, payload in findings:
         chk.violation(key, text, payload, True)
     broken = []
